@@ -31,11 +31,22 @@ def run_seed(sid):
             return res
         for pid in [meta['property']] + meta.get('also', []):
             t0 = time.time()
-            env = dict(os.environ, VERIF_REPO=scratch)
-            p = subprocess.run([os.path.join(ROOT, 'check'), pid, '--tier', 'quick'], cwd=ROOT, env=env, capture_output=True, text=True)
+            env = dict(os.environ, VERIF_REPO=scratch, VERIF_NO_COQCHK='1')
+            tier = 'quick'
+            p = subprocess.run([os.path.join(ROOT, 'check'), pid, '--tier', tier], cwd=ROOT, env=env, capture_output=True, text=True)
             out = p.stdout + p.stderr
             viol = [l for l in out.split('\n') if l.startswith('VIOLATION')]
-            r = dict(exit=p.returncode, wall_s=round(time.time() - t0, 1), violation_lines=viol, tail=out[-1500:])
+            if THOROUGH and pid == meta['property'] and (not viol or 'no-failing-input-found' in viol[0]):
+                # the quick tier passes or only sees a correspondence break: try the thorough tier
+                tier = 'thorough'
+                p = subprocess.run([os.path.join(ROOT, 'check'), pid, '--tier', tier], cwd=ROOT, env=env, capture_output=True, text=True)
+                out2 = p.stdout + p.stderr
+                viol2 = [l for l in out2.split('\n') if l.startswith('VIOLATION')]
+                if viol2 and (not viol or 'no-failing-input-found' not in viol2[0]):
+                    out, viol = out2, viol2
+                else:
+                    tier = 'quick'
+            r = dict(exit=p.returncode, wall_s=round(time.time() - t0, 1), violation_lines=viol, tail=out[-1500:], tier=tier)
             if viol:
                 rp = viol[0].split('replay=')[1].split()[0]
                 if os.path.exists(rp):
@@ -57,14 +68,21 @@ def run_seed(sid):
     return res
 
 
+THOROUGH = False
+
+
 def main():
+    global THOROUGH
+    if '--thorough-if-missed' in sys.argv:
+        THOROUGH = True
+        sys.argv.remove('--thorough-if-missed')
     ids = sys.argv[1:] or sorted(os.listdir(os.path.join(ROOT, 'seeded')))
     for sid in ids:
         if not os.path.exists(os.path.join(ROOT, 'seeded', sid, 'meta.json')):
             continue
         r = run_seed(sid)
         print(sid, r.get('property'), 'DETECTED' if r.get('detected') else 'missed', r.get('error', ''),
-              ' '.join('%s:%s' % (k, 'concrete' if v.get('concrete_input') else ('no-input' if v.get('violation_lines') else 'pass')) for k, v in r.get('checks', {}).items()))
+              ' '.join('%s[%s]:%s' % (k, v.get('tier', 'quick'), 'concrete' if v.get('concrete_input') else ('no-input' if v.get('violation_lines') else 'pass')) for k, v in r.get('checks', {}).items()))
 
 
 if __name__ == '__main__':
